@@ -67,6 +67,17 @@ def rule_a(ctx, ix):
         # the filter on `components`
         flt = [n for n in lp.body if isinstance(n, ast.If) and 'components' in unparse(n.test) and any(isinstance(x, ast.Continue) for x in n.body)]
         ok = len(flt) >= 1 and 'is not None' in unparse(flt[0].test) and ('%s not in' % cid) in unparse(flt[0].test)
+        if not ok and flt:
+            # the same test in another spelling: skipped  <=>  a list was given and the component is not in it
+            from .. import cond as _c
+            for n_ in flt:
+                lst = sorted({a_.split('|')[2] for a_ in _c.atoms(_c.formula(n_.test)) if a_.startswith('in|%s|' % cid)})
+                if len(lst) == 1:
+                    want_ = _c.And(_c.Not(_c.T('is|None|%s' % lst[0])), _c.Not(_c.T('in|%s|%s' % (cid, lst[0]))))
+                    try:
+                        ok = ok or _c.equivalent(_c.formula(n_.test), want_)
+                    except ValueError:
+                        pass
         ctx.ob(R, f.construct + ' filter', 'a component is skipped only when a component list was given and it is not in it', ok,
                detail='%s filters the exported components with `%s`' % (f.construct, unparse(flt[0].test) if flt else None), where=where(f, lp))
         # written under its label
@@ -178,7 +189,11 @@ def rule_b(ctx, ix):
             sinks = [n for n in ast.walk(lp) if (isinstance(n, ast.Call) and call_name(n) in SINKS) or
                      (isinstance(n, ast.Assign) and isinstance(n.targets[0], ast.Subscript) and '.label' in unparse(n.targets[0].slice))]
             first = min(n.lineno for n in applied)
-            ok = bool(sinks) and all(s_.lineno > first for s_ in sinks)
+            def inside(s_):
+                # the masked values are computed in the written expression itself: `out[label] = v if m is None else v[m]`
+                src = s_.value if isinstance(s_, ast.Assign) else s_
+                return any(a_ is x_ for a_ in applied for x_ in ast.walk(src))
+            ok = bool(sinks) and all(s_.lineno > first or inside(s_) for s_ in sinks)
             ctx.ob(R, f.construct + ' order', 'the column is written after the mask was applied', ok,
                    detail='%s writes the column before applying the mask' % f.construct, where=where(f, lp))
         # fresh-before-mutate: in-place masking only on copies
